@@ -89,3 +89,26 @@ def zobrist_history_covers_u16(ctx):
                     if touches and is_mut and not key.endswith("::index_mut") and not key.endswith("DerefMut>::deref_mut"):
                         return False
     return built >= 1
+
+
+@guard("fen_ranks_validated_after_grammar")
+def fen_ranks_validated_after_grammar(ctx):
+    """the per-rank validation indexes characters by byte position, which is sound only for text the FEN grammar has
+    accepted (ASCII by its character classes): in Fen::from_str every call that reaches validate_rank(s) is dominated
+    by the grammar match (Fen::parse / a regex captures call)"""
+    prog = ctx.prog
+    f = prog.fns.get(FEN_FROM_STR)
+    if f is None:
+        return False
+    cfg = Cfg(f)
+    def calls(pred):
+        return [b for b in sorted(cfg.reach) if f["blocks"][b]["term"]["k"] == "call" and not f["blocks"][b]["cleanup"] and pred(f["blocks"][b]["term"]["callee"].get("key") or "")]
+    grammar = calls(lambda k: k.endswith("Fen::parse") or k.endswith("Regex::captures") or k.endswith("Regex::is_match") or k.endswith("Regex::captures_iter"))
+    validate = calls(lambda k: k.endswith("Fen::validate_ranks") or k.endswith("Fen::validate_rank"))
+    if not validate:
+        # validated inside a closure / helper of from_str: look there
+        for g in _fns_with_closures(prog, FEN_FROM_STR)[1:]:
+            if any(bb["term"]["k"] == "call" and (bb["term"]["callee"].get("key") or "").endswith(("Fen::validate_ranks", "Fen::validate_rank")) for bb in g["blocks"]):
+                return bool(grammar)
+        return False
+    return bool(grammar) and all(any(cfg.dominates(g_, v) for g_ in grammar) for v in validate)
